@@ -6,12 +6,6 @@ namespace ArrModel.C18
 
 /-! ### Display -/
 
-theorem chunks_map {α β} (f : α → β) (k n : Nat) (l : List α) :
-    chunks k n (l.map f) = (chunks k n l).map (List.map f) := by
-  induction n generalizing l with
-  | zero => rfl
-  | succ n ih => simp only [chunks, List.map_cons, ← List.map_take, ← List.map_drop, ih]
-
 theorem chunks_one_head (n : Nat) (es : List Str) (hl : es.length = n) :
     (chunks 1 n es).map (fun c => c.headD []) = es := by
   induction n generalizing es with
